@@ -51,7 +51,7 @@ def run(chk, replay=None):
         chk.only(replay, keys=("clause", "fmt", "path"))
     rng = random.Random(chk.seed)
     B = builders()
-    n = 40 if chk.quick else 3000
+    n = 40 if chk.quick else 9000
     marsh, unm = [], []
 
     def viol(clause, fmt, path, detail):
